@@ -27,10 +27,14 @@ def needDelta (t : Trace) : Bool := (scaleState (currentDeltas t)).2 != 0
 def listSize (t : Trace) : Nat := if (t.all "scaling_list_present").length ≤ 6 then 16 else 64
 
 def hrd : List Syn := [
-  .ue "cpb_cnt_minus1", .fld "bit_rate_scale" 4, .fld "cpb_size_scale" 4,
-  .rep (fun t => t.nat "cpb_cnt_minus1" + 1) [.ue "bit_rate_value_minus1", .ue "cpb_size_value_minus1", .flag "cbr_flag"],
-  .fld "initial_cpb_removal_delay_length_minus1" 5, .fld "cpb_removal_delay_length_minus1" 5,
-  .fld "dpb_output_delay_length_minus1" 5, .fld "time_offset_length" 5]
+  .ue "cpb_cnt_minus1",
+  -- cpb_cnt_minus1 > 31: SetError and return from parseHrdParameters (the rest of the VUI is still read, as zeros)
+  .seterr (fun t => t.nat "cpb_cnt_minus1" > 31),
+  .cond (fun t => t.nat "cpb_cnt_minus1" ≤ 31) [
+    .fld "bit_rate_scale" 4, .fld "cpb_size_scale" 4,
+    .rep 32 (fun t => t.nat "cpb_cnt_minus1" + 1) [.ue "bit_rate_value_minus1", .ue "cpb_size_value_minus1", .flag "cbr_flag"],
+    .fld "initial_cpb_removal_delay_length_minus1" 5, .fld "cpb_removal_delay_length_minus1" 5,
+    .fld "dpb_output_delay_length_minus1" 5, .fld "time_offset_length" 5]]
 
 def vui : List Syn := [
   .flag "aspect_ratio_info_present_flag",
@@ -74,16 +78,17 @@ def sps (signedOffsets : Bool) : List Syn :=
     .ue "bit_depth_luma_minus8", .ue "bit_depth_chroma_minus8", .flag "qpprime_y_zero_transform_bypass_flag",
     .flag "seq_scaling_matrix_present_flag",
     .cond (fun t => t.get "seq_scaling_matrix_present_flag" = 1) [
-      .rep (fun t => if t.get "chroma_format_idc" = 3 then 12 else 8) [
+      .rep 12 (fun t => if t.get "chroma_format_idc" = 3 then 12 else 8) [
         .flag "scaling_list_present",
         .cond (fun t => t.get "scaling_list_present" = 1) [
-          .rep listSize [.cond needDelta [.se "delta_scale"]]]]]],
+          .rep 64 listSize [.cond needDelta [.se "delta_scale"]]]]]],
   .ue "log2_max_frame_num_minus4", .ue "pic_order_cnt_type",
   .cond (fun t => t.get "pic_order_cnt_type" = 0) [.ue "log2_max_pic_order_cnt_lsb_minus4"],
   .cond (fun t => t.get "pic_order_cnt_type" = 1) [
     .flag "delta_pic_order_always_zero_flag", off "offset_for_non_ref_pic", off "offset_for_top_to_bottom_field",
     .ue "num_ref_frames_in_pic_order_cnt_cycle",
-    .rep (fun t => t.nat "num_ref_frames_in_pic_order_cnt_cycle") [off "offset_for_ref_frame"]],
+    .abort (fun t => t.nat "num_ref_frames_in_pic_order_cnt_cycle" > 255),
+    .rep 255 (fun t => t.nat "num_ref_frames_in_pic_order_cnt_cycle") [off "offset_for_ref_frame"]],
   .ue "max_num_ref_frames", .flag "gaps_in_frame_num_value_allowed_flag",
   .ue "pic_width_in_mbs_minus1", .ue "pic_height_in_map_units_minus1", .flag "frame_mbs_only_flag",
   .cond (fun t => t.get "frame_mbs_only_flag" = 0) [.flag "mb_adaptive_frame_field_flag"],
